@@ -104,6 +104,9 @@ func runCensus(seed uint64, cas int, tier string) *CensusRes {
 			do(&Op{K: OpReaddirplus, H: D.FH, Count: 300, Dircount: 50})
 			do(&Op{K: OpLookup, H: D.FH, Name: "."})
 			do(&Op{K: OpLookup, H: D.FH, Name: ".."})
+			// a transaction the journal refuses (too large) must give its locks back
+			do(&Op{K: OpSymlink, H: D.FH, Name: "huge", Target: longName(520*BlockSize+1, 'H')})
+			do(&Op{K: OpLookup, H: D.FH, Name: "huge"})
 			for _, n := range names {
 				C := s.m.Objs[D.Ents[n]]
 				res.Pairs++
